@@ -105,7 +105,7 @@ class Wire:
 
 
 class WireWriter:
-    """asyncio.StreamWriter stand-in.  drain_mode: 'ok' | 'reset' (the write fails) | 'hang' (back pressure that never
+    """asyncio.StreamWriter stand-in.  drain_mode: 'ok' | 'reset' (the write fails) | 'slow' / 'slow_reset' (returns / fails after drain_delay s) | 'hang' (back pressure that never
     clears).  close_mode: 'ok' (connection_lost on the next loop iteration) | 'hang' (the transport never reports the
     loss: unsent data) | 'error' (connection_lost(exc): wait_closed raises)."""
 
@@ -117,6 +117,7 @@ class WireWriter:
         self.closed = False
         self.close_calls = 0
         self.drain_mode = 'ok'
+        self.drain_delay = 1.0
         self.close_mode = 'ok'
         self._close_waiter = None
         self._close_waiter_done = False
@@ -146,6 +147,21 @@ class WireWriter:
         if self.drain_mode == 'hang':
             f = asyncio.get_running_loop().create_future()
             self._drain_waiters.append(f)
+            await f
+        if self.drain_mode in ('slow', 'slow_reset'):
+            # back pressure that clears (or a write that fails) drain_delay seconds later
+            loop = asyncio.get_running_loop()
+            f, mode = loop.create_future(), self.drain_mode
+            self._drain_waiters.append(f)
+
+            def later():
+                if f.done():
+                    return
+                if mode == 'slow':
+                    f.set_result(None)
+                else:
+                    self.wire._lost(ConnectionResetError('Connection reset by peer'))
+            loop.call_later(self.drain_delay, later)
             await f
 
     def is_closing(self):
@@ -597,7 +613,7 @@ STUBS = [
     'StreamReader -> engine.c02env.FakeReader (byte terms; validated against asyncio.StreamReader in the prelude); StreamWriter -> '
     'engine.c10env.WireWriter: close() -> connection_lost on the next loop iteration -> reader EOF + wait_closed() returns; reset -> '
     'reader exception, drain()/wait_closed() raise; write() after close() is silently dropped (asyncio behaviour) and recorded; scripted '
-    'faults: drain raises / never returns, wait_closed never returns / raises',
+    'faults: drain raises / never returns / returns or fails after a delay, wait_closed never returns / raises',
     'Network._expected_connection_futures -> engine.c10env.TicketMap while exploring (key comparison by == on symbolic tickets instead of '
     'hashing; the real dict in concrete replay)',
     'Network._ticket_generator -> generator of fresh pairwise distinct 32-bit values (symbolic; model values in replay)',
